@@ -165,11 +165,22 @@ async fn build_world(
     Ok(World { slots, txs, out_rx, coord: Some(coord), _shutdown: shutdown_tx })
 }
 
+/// ContextOrchestrator::shutdown joins the context threads; a context that is blocked for good would hang the harness,
+/// so the join is given a deadline and abandoned after it.
+fn shutdown_with_deadline(orch: ContextOrchestrator) -> bool {
+    let (tx, rx) = std::sync::mpsc::channel();
+    std::thread::spawn(move || {
+        orch.shutdown();
+        let _ = tx.send(());
+    });
+    rx.recv_timeout(Duration::from_secs(10)).is_ok()
+}
+
 fn real_routing(program: &Program, cmap: &ContextMap, cap: usize) -> Result<FxHashMap<String, String>, String> {
     let (tx, _rx) = mpsc::channel::<Event>(16);
     let orch = ContextOrchestrator::build(cmap, program, tx, cap)?;
     let r = orch.ingress_routing().clone();
-    orch.shutdown();
+    shutdown_with_deadline(orch);
     Ok(r)
 }
 
@@ -314,8 +325,13 @@ fn orch(req: &J) -> J {
     let mut errs = Vec::new();
     rt.block_on(async {
         for e in req["events"].as_array().unwrap() {
-            if let Err(x) = orch.process(Arc::new(ev_of(e))).await {
-                errs.push(x);
+            match tokio::time::timeout(Duration::from_millis(timeout_ms), orch.process(Arc::new(ev_of(e)))).await {
+                Ok(Ok(())) => {}
+                Ok(Err(x)) => errs.push(x),
+                Err(_) => {
+                    errs.push("input dispatch blocked until the timeout".to_string());
+                    break;
+                }
             }
         }
         let t0 = std::time::Instant::now();
@@ -338,7 +354,9 @@ fn orch(req: &J) -> J {
             tokio::time::sleep(Duration::from_millis(5)).await;
         }
     });
-    orch.shutdown();
+    if !shutdown_with_deadline(orch) {
+        errs.push("shutdown did not return within 10 s".to_string());
+    }
     while let Ok(e) = out_rx.try_recv() {
         out.push(ev_json(&e));
     }
@@ -378,7 +396,9 @@ fn orch_cp(req: &J) -> J {
             for round in 0..2 {
                 if round == 1 {
                     for e in req[evk].as_array().unwrap() {
-                        let _ = orch.process(Arc::new(ev_of(e))).await;
+                        if tokio::time::timeout(Duration::from_millis(timeout_ms), orch.process(Arc::new(ev_of(e)))).await.is_err() {
+                            break;
+                        }
                     }
                     let t0 = std::time::Instant::now();
                     let mut reached: Option<std::time::Instant> = None;
@@ -418,11 +438,11 @@ fn orch_cp(req: &J) -> J {
                 }
             }
         });
-        orch.shutdown();
+        let clean = shutdown_with_deadline(orch);
         while let Ok(e) = out_rx.try_recv() {
             out.push(ev_json(&e));
         }
-        phases.push(json!({"out": out, "checkpoints": cps}));
+        phases.push(json!({"out": out, "checkpoints": cps, "shutdown": clean}));
     }
     json!({"phases": phases})
 }
